@@ -47,7 +47,7 @@ class C16(Prop):
         for _ in range(n): out.append(self.legend_item(rng))
         tags = ['{a}', '{a,b}', '{big_1}', '{a}{b}', '{a} {b}', '{a}x', 'x{a}', '{a,}', '{}', '{a', '{a b}', '{1a}', '{é}', '{a,b,c}']
         for _ in range(n):
-            k = rng.choice(['box', 'rbox', 'circle', 'nested', 'beside', 'outside', 'multi'])
+            k = rng.choice(['box', 'rbox', 'circle', 'nested', 'beside', 'outside', 'multi', 'siblings', 'titled'])
             tg = rng.choice(tags)
             if k == 'box': rows = gens.box(rng.randint(len(tg), 14), rng.randint(1, 3), '++++', '-', '|', [' ' * rng.randint(0, 1) + tg, rng.choice(['', 'txt'])])
             elif k == 'rbox': rows = gens.box(rng.randint(len(tg), 14), rng.randint(1, 3), rng.choice(["..''", ",.`'"]), '-', '|', [tg])
@@ -56,6 +56,17 @@ class C16(Prop):
                 rows = gens.box(16, 5)
                 rows = gens.overlay(rows, gens.box(8, 1, '++++', '-', '|', [tg[:8]]), 2, 1)
                 rows = gens.overlay(rows, [rng.choice(tags)[:5]], 3, 5)
+            elif k == 'siblings':
+                # two or three inner boxes in one outer box, a tag in each (or only in the first)
+                rows = gens.box(30, 5)
+                for j in range(rng.randint(2, 3)):
+                    t2 = rng.choice(['{a}', '{b}', '{c}', '']) if j else tg[:6]
+                    rows = gens.overlay(rows, gens.box(6, 1, '++++', '-', '|', [t2]), 2 + 9 * j, rng.choice([1, 2]))
+            elif k == 'titled':
+                # a plain title directly in the outer box, before the tagged inner box in reading order
+                rows = gens.box(20, 6)
+                rows = gens.overlay(rows, [rng.choice(['Title', 'ab cd', 'x'])], 2, 1)
+                rows = gens.overlay(rows, gens.box(8, 1, rng.choice(['++++', "..''"]), '-', '|', [tg[:8]]), rng.choice([2, 8]), 3)
             elif k == 'beside': rows = gens.box(12, 1, '++++', '-', '|', [tg + ' label'])
             elif k == 'outside': rows = gens.box(4, 1) + ['', tg]
             else: rows = gens.box(14, 3, '++++', '-', '|', [tg, 'hello', rng.choice(tags)])
@@ -100,6 +111,21 @@ class C16(Prop):
                 classes = [e.get('class', '') .split() for e in root.walk() if e.tag in ('rect', 'circle', 'line', 'path', 'polygon', 'text')]
                 for nm in names:
                     if not any(nm in c for c in classes): out.append('tag %r: class %r was applied to no element' % (f['text'], nm))
+                # the innermost rectangle around the tag is the one that gets the class
+                rects_in = [g for g in holders if g['k'] == 'R']
+                others = [g for g in holders if g['k'] != 'R']
+                if rects_in and not others:
+                    def area(g):
+                        (x0, y0), (x1, y1) = frag_bounds(g); return (x1 - x0) * (y1 - y0)
+                    inner = min(rects_in, key=area)
+                    (x0, y0), (x1, y1) = frag_bounds(inner)
+                    el = [e for e in root.walk() if e.tag == 'rect' and e.get('class') != 'backdrop'
+                          and F(e.get('x')) * 5 == x0 and F(e.get('y')) * 5 == y0 and F(e.get('width')) * 5 == x1 - x0 and F(e.get('height')) * 5 == y1 - y0]
+                    if len([g for g in rects_in if area(g) == area(inner)]) == 1 and el:
+                        cls = (el[0].get('class') or '').split()
+                        for nm in names:
+                            if nm not in cls: out.append('tag %r at cell (%s,%s): class %r is not on the innermost rectangle around it (%s,%s %sx%s has %r)' % (
+                                f['text'], x, y, nm, el[0].get('x'), el[0].get('y'), el[0].get('width'), el[0].get('height'), cls))
             elif m and not holders:
                 if not rendered: out.append('tag %r at cell (%s,%s) lies inside no element but is not rendered as text' % (f['text'], x, y))
             elif not m:
